@@ -9,9 +9,9 @@ namespace ElaVerif.WireSchemas
 open ElaVerif.Wire ElaVerif.Tx
 
 /-- `K` of the transaction / block reader: allocation per consumed byte. -/
-def txDens : Nat := 530
-/-- `C`: one buffer of the largest var-bytes limit (`MaxVarStringLength`, 16 MiB, plus size-class rounding). -/
-def txSlack : Nat := 20971536
+def txDens : Nat := 548
+/-- `C`: one buffer of the largest var-bytes limit (`MaxVarStringLength`, 16 MiB: buffer, size-class rounding and the `string(buf)` copy, 40 MiB). -/
+def txSlack : Nat := 41943072
 
 /-- the property of a schema that the table lemmas establish -/
 def Nice (ty : Ty) : Prop :=
@@ -45,6 +45,40 @@ theorem nice_crcProposalWithdraw (pv : Nat) : Nice (crcProposalWithdraw pv) := b
   unfold crcProposalWithdraw Nice
   by_cases h1 : pv = 1 <;> simp only [h1, if_true, if_false] <;> decide
 
+theorem nice_withdrawFromSideChain (pv : Nat) : Nice (withdrawFromSideChain pv) := by
+  unfold withdrawFromSideChain Nice
+  by_cases h0 : pv = 0 <;> by_cases h2 : pv = 2 <;> simp only [h0, h2, if_true, if_false] <;> decide
+
+theorem nice_transferCrossChainAsset (pv : Nat) : Nice (transferCrossChainAsset pv) := by
+  unfold transferCrossChainAsset Nice
+  by_cases h1 : 1 ≤ pv <;> simp only [h1, if_true, if_false] <;> decide
+
+theorem nice_crInfo (pv : Nat) : Nice (crInfo pv) := by
+  unfold crInfo Nice
+  by_cases h2 : pv ≠ 2 ∧ pv ≠ 3
+  · rw [if_pos h2, if_pos h2]
+    by_cases h1 : 1 ≤ pv <;> simp only [h1, if_true, if_false] <;> decide
+  · rw [if_neg h2, if_neg h2]
+    by_cases h1 : 1 ≤ pv <;> simp only [h1, if_true, if_false] <;> decide
+
+theorem nice_unregisterCR (pv : Nat) : Nice (unregisterCR pv) := by
+  unfold unregisterCR Nice
+  by_cases h2 : pv ≠ 1 ∧ pv ≠ 2
+  · rw [if_pos h2]; decide
+  · rw [if_neg h2]; decide
+
+theorem nice_crcProposalTracking (pv : Nat) : Nice (crcProposalTracking pv) := by
+  unfold crcProposalTracking Nice
+  by_cases h1 : 1 ≤ pv <;> simp only [h1, if_true, if_false] <;> decide
+
+theorem nice_returnSideChainDepositCoin (pv : Nat) : Nice (returnSideChainDepositCoin pv) := by
+  unfold returnSideChainDepositCoin Nice
+  by_cases h1 : pv = 1 <;> simp only [h1, if_true, if_false] <;> decide
+
+theorem nice_createNFT (pv : Nat) : Nice (createNFT pv) := by
+  unfold createNFT Nice
+  by_cases h1 : 1 ≤ pv <;> simp only [h1, if_true, if_false] <;> decide
+
 theorem covered_cases {ty : Nat} {f : Nat → Ty} (h : payloadOf ty = .covered f) :
     f = (fun _ => coinBase) ∨
     f = (fun _ => transferAsset) ∨
@@ -60,19 +94,31 @@ theorem covered_cases {ty : Nat} {f : Nat → Ty} (h : payloadOf ty = .covered f
     f = (fun _ => revertToPOW) ∨
     f = (fun _ => revertToDPOS) ∨
     f = (fun _ => recordSponsor) ∨
+    f = (fun _ => registerAsset) ∨
+    f = (fun _ => dposIllegalProposals) ∨
+    f = (fun _ => sidechainIllegalData) ∨
+    f = (fun _ => votesRealWithdraw) ∨
+    f = (fun _ => nftDestroyFromSideChain) ∨
     f = producerInfo ∨
     f = nextTurnDPOSInfo ∨
     f = crcProposalReview ∨
     f = voting ∨
     f = processProducer ∨
     f = returnVotes ∨
-    f = crcProposalWithdraw := by
+    f = crcProposalWithdraw ∨
+    f = withdrawFromSideChain ∨
+    f = transferCrossChainAsset ∨
+    f = crInfo ∨
+    f = unregisterCR ∨
+    f = crcProposalTracking ∨
+    f = returnSideChainDepositCoin ∨
+    f = createNFT := by
   unfold payloadOf at h
   split at h <;> simp_all
 
 theorem nice_covered {ty : Nat} {f : Nat → Ty} (h : payloadOf ty = .covered f) (pv : Nat) :
     Nice (f pv) := by
-  rcases covered_cases h with rfl | rfl | rfl | rfl | rfl | rfl | rfl | rfl | rfl | rfl | rfl | rfl | rfl | rfl | rfl | rfl | rfl | rfl | rfl | rfl | rfl
+  rcases covered_cases h with rfl | rfl | rfl | rfl | rfl | rfl | rfl | rfl | rfl | rfl | rfl | rfl | rfl | rfl | rfl | rfl | rfl | rfl | rfl | rfl | rfl | rfl | rfl | rfl | rfl | rfl | rfl | rfl | rfl | rfl | rfl | rfl | rfl
   · show Nice coinBase; unfold Nice; decide
   · show Nice transferAsset; unfold Nice; decide
   · show Nice dposIllegalBlocks; unfold Nice; decide
@@ -87,6 +133,11 @@ theorem nice_covered {ty : Nat} {f : Nat → Ty} (h : payloadOf ty = .covered f)
   · show Nice revertToPOW; unfold Nice; decide
   · show Nice revertToDPOS; unfold Nice; decide
   · show Nice recordSponsor; unfold Nice; decide
+  · show Nice registerAsset; unfold Nice; decide
+  · show Nice dposIllegalProposals; unfold Nice; decide
+  · show Nice sidechainIllegalData; unfold Nice; decide
+  · show Nice votesRealWithdraw; unfold Nice; decide
+  · show Nice nftDestroyFromSideChain; unfold Nice; decide
   · exact nice_producerInfo pv
   · exact nice_nextTurnDPOSInfo pv
   · exact nice_crcProposalReview pv
@@ -94,11 +145,23 @@ theorem nice_covered {ty : Nat} {f : Nat → Ty} (h : payloadOf ty = .covered f)
   · exact nice_processProducer pv
   · exact nice_returnVotes pv
   · exact nice_crcProposalWithdraw pv
+  · exact nice_withdrawFromSideChain pv
+  · exact nice_transferCrossChainAsset pv
+  · exact nice_crInfo pv
+  · exact nice_unregisterCR pv
+  · exact nice_crcProposalTracking pv
+  · exact nice_returnSideChainDepositCoin pv
+  · exact nice_createNFT pv
 
 /-- beyond version 4 no covered payload changes its layout (so `txBody`'s default case is right) -/
 theorem covered_stable {ty : Nat} {f : Nat → Ty} (h : payloadOf ty = .covered f) (pv : Nat)
     (hpv : 4 ≤ pv) : f pv = f 4 := by
-  rcases covered_cases h with rfl | rfl | rfl | rfl | rfl | rfl | rfl | rfl | rfl | rfl | rfl | rfl | rfl | rfl | rfl | rfl | rfl | rfl | rfl | rfl | rfl
+  rcases covered_cases h with rfl | rfl | rfl | rfl | rfl | rfl | rfl | rfl | rfl | rfl | rfl | rfl | rfl | rfl | rfl | rfl | rfl | rfl | rfl | rfl | rfl | rfl | rfl | rfl | rfl | rfl | rfl | rfl | rfl | rfl | rfl | rfl | rfl
+  · rfl
+  · rfl
+  · rfl
+  · rfl
+  · rfl
   · rfl
   · rfl
   · rfl
@@ -136,6 +199,29 @@ theorem covered_stable {ty : Nat} {f : Nat → Ty} (h : payloadOf ty = .covered 
   · unfold crcProposalWithdraw
     have h1 : ¬ pv = 1 := by omega
     simp [h1]
+  · unfold withdrawFromSideChain
+    have h0 : ¬ pv = 0 := by omega
+    have h2 : ¬ pv = 2 := by omega
+    simp [h0, h2]
+  · unfold transferCrossChainAsset
+    have h1 : 1 ≤ pv := by omega
+    simp [h1]
+  · unfold crInfo
+    have h1 : 1 ≤ pv := by omega
+    have h2 : pv ≠ 2 ∧ pv ≠ 3 := by omega
+    simp [h1, h2]
+  · unfold unregisterCR
+    have h2 : pv ≠ 1 ∧ pv ≠ 2 := by omega
+    simp [h2]
+  · unfold crcProposalTracking
+    have h1 : 1 ≤ pv := by omega
+    simp [h1]
+  · unfold returnSideChainDepositCoin
+    have h1 : ¬ pv = 1 := by omega
+    simp [h1]
+  · unfold createNFT
+    have h1 : 1 ≤ pv := by omega
+    simp [h1]
 
 theorem nice_output (v9 : Bool) : Nice (output v9) := by
   cases v9 <;> unfold Nice <;> decide
@@ -171,13 +257,13 @@ theorem body_nice {ty ver : Nat} {fs : List Ty} (h : bodyTy? ty ver = some fs) :
       have x3 : 1 ≤ minSize attributeTy := by decide
       have x4 : 1 ≤ minSize input := by decide
       simp [txBody, boundedFields, bounded, boundedCases, b0, b1, b2, b3, b4, bo, x1, x2, x3, x4, m1]
-    · have x1 : dens attributeTy = 18 := by decide
+    · have x1 : dens attributeTy = 36 := by decide
       have x2 : dens input = 0 := by decide
-      have x3 : dens (output (decide (txVersion09 ≤ ver))) ≤ 274 := by
+      have x3 : dens (output (decide (txVersion09 ≤ ver))) ≤ 292 := by
         cases decide (txVersion09 ≤ ver) <;> decide
       simp only [txBody, densFields, dens, densCases, x1, x2]
       omega
-    · have x1 : slack attributeTy = 20971536 := by decide
+    · have x1 : slack attributeTy = 41943072 := by decide
       have x2 : slack input = 0 := by decide
       simp only [txBody, slackFields, slack, slackCases, Option.getD_none, x1, x2]
       omega
